@@ -95,12 +95,13 @@ class StructT(T):
 class OpaqueRef(T):
     """&O, &mut O, Option<&O>"""
 
-    def __init__(self, name, mut=False, optional=False):
+    def __init__(self, name, mut=False, optional=False, as_self=False):
         self.name, self.mut, self.optional = name, mut, optional
+        self.as_self = as_self          # spelled with the `Self` keyword inside the type's own impl block
         self.borrowed = True
 
     def rust(self, lt=None):
-        r = "&%s%s%s" % ((lt + " ") if lt else "", "mut " if self.mut else "", self.name)
+        r = "&%s%s%s" % ((lt + " ") if lt else "", "mut " if self.mut else "", "Self" if self.as_self else self.name)
         return "Option<%s>" % r if self.optional else r
 
     def log(self, e, l, ctx):
@@ -601,6 +602,8 @@ def m0_core():
     m.method("Op", "get_mut_opt", "mut", [], OpaqueRef("Op", mut=True, optional=True), ret_from=PassThrough("self"))
     m.method("Op", "pick_mut", None, [("a", OpaqueRef("Op", mut=True)), ("k", P("u8"))], OpaqueRef("Op", mut=True, optional=True), ret_from=PassThrough("a"))
     m.method("Op", "other", "ref", [("o", OpaqueRef("Op")), ("p", OpaqueRef("Op", optional=True)), ("q", OpaqueRef("Op", mut=True))], None)
+    m.method("Op", "self_spelled", "ref", [("o", OpaqueRef("Op", as_self=True)), ("p", OpaqueRef("Op", optional=True, as_self=True)), ("k", P("u8")),
+                                           ("q", OpaqueRef("Op", mut=True, optional=True, as_self=True))], P("u8"))
     m.method("Op", "enums", None, [("a", EnumT("En")), ("b", EnumT("Small")), ("c", EnumT("Solo"))], EnumT("En"))
     m.method("Op", "ret_small", None, [], EnumT("Small"))
     m.method("Op", "pad", "ref", [("s", StructT("Pad")), ("t", StructT("Rev"))], StructT("Pad"))
